@@ -104,6 +104,45 @@ class CallGraph:
                     stack.append(b)
         return parent
 
+    def callers(self, fid):
+        if not hasattr(self, "_rev"):
+            self._rev = {}
+            for a, bs in self.edges.items():
+                for b in bs:
+                    self._rev.setdefault(b, set()).add(a)
+        return self._rev.get(fid, set())
+
+    def owner_chain(self, fn, depth=4):
+        """The functions whose code `fn` is, nearest first: a closure is its parent's code, and a private helper all of whose
+        callers belong to one function is that function's code ("extract function" moves code down this chain).  Paths are
+        printed without closure ordinals."""
+        import re
+        strip = lambda p: re.sub(r"(::\{closure#\d+\})+$", "", p)
+        base = strip(fn.path)
+        out = [base]
+        while depth > 0:
+            depth -= 1
+            top = [g for g in self.F.by_crate[fn.crate] if g.path == out[-1]]
+            if len(top) != 1:
+                break
+            g = top[0]
+            if g.raw.get("public") or g.raw.get("impl_trait"):
+                break
+            owners = set()
+            for c in self.callers(g.id):
+                cf = self.F.fns[c]
+                cb = strip(cf.path)
+                if cb == g.path:
+                    continue    # recursion / its own closures
+                owners.add(cb if cf.crate == fn.crate else cf.crate + "::" + cb)
+            if len(owners) != 1:
+                break
+            nxt = owners.pop()
+            if nxt in out:
+                break
+            out.append(nxt)
+        return out
+
     def path_to(self, parent, fid):
         out = []
         while fid is not None:
